@@ -36,7 +36,12 @@ TRoute ==
   /\ Judge(IF ~Ev.reached THEN "a request to the operation's method and path does not reach any handler"
            ELSE IF \E i \in DOMAIN routes : routes[i] = Ev.handler THEN "two operations are served by the same handler"
            ELSE "ok")
-TNext == TGenerate \/ TBuild \/ TInspect \/ TRoute
+\* the server generation was refused and `generate client`, run alone, accepted the same document
+TClientOnly ==
+  /\ IsEvent("ClientOnly") /\ phase = "refused"
+  /\ UNCHANGED <<phase, nops, ndefs, routes>>
+  /\ Judge(IF Ev.nClientMethods # Ev.nOps THEN "client methods are not in bijection with the operations (one is missing or merged)" ELSE "ok")
+TNext == TGenerate \/ TBuild \/ TInspect \/ TRoute \/ TClientOnly
 TSpec == TInit /\ [][TNext]_tvars
 Consumed == TLCGet("stats").diameter - 1 = Len(Trace)
 =============================================================================
